@@ -26,6 +26,8 @@ package main
 import (
 	"fmt"
 	"os"
+
+	"github.com/restic/restic/internal/data"
 	"path/filepath"
 	"sort"
 	"strings"
@@ -79,6 +81,10 @@ func c20GenTree(rng *kit.RNG) []c20Entry {
 				if !rng.Chance(1, 6) { // some empty directories
 					gen(p, depth+1)
 				}
+			case k == 9 && rng.Bool():
+				// a socket node: restore never creates it, but it IS part of the snapshot, so --delete
+				// must not remove a pre-existing entry of that name (seeded change C20-1)
+				out = append(out, c20Entry{Path: p, Type: "socket", InSnap: true})
 			case k == 9:
 				out = append(out, c20Entry{Path: p, Type: "symlink", Data: "snaplink-" + name, InSnap: true})
 			default:
@@ -172,6 +178,12 @@ func c20Gen(rng *kit.RNG, idx int) c20Case {
 		c.Pre = append(c.Pre, e)
 	}
 	for _, e := range c.Snap {
+		if e.Type == "socket" {
+			if rng.Chance(2, 3) {
+				addPre(c20Entry{Path: e.Path, Type: "file", Data: "pre-existing-at-socket:" + e.Path, IsPre: true, InSnap: true})
+			}
+			continue
+		}
 		if rng.Chance(1, 3) {
 			pe := c20Entry{Path: e.Path, Type: e.Type, IsPre: true, InSnap: true}
 			switch e.Type {
@@ -344,6 +356,8 @@ func c20Run(t *testing.T, rec *kit.Rec, c c20Case) {
 			n = vRawFile(name, 0o644, mt, []byte(en.Data))
 		case "symlink":
 			n = vRawSymlink(name, en.Data, mt)
+		case "socket":
+			n = &vRawNode{Node: data.Node{Name: name, Type: data.NodeTypeSocket, Mode: os.ModeSocket | 0o755, ModTime: mt, AccessTime: mt, ChangeTime: mt}}
 		}
 		nodes[en.Path] = n
 		if par := filepath.Dir(en.Path); par == "/" {
@@ -411,6 +425,9 @@ func c20Run(t *testing.T, rec *kit.Rec, c c20Case) {
 	expect := map[string]bool{} // snapshot paths that must exist with snapshot content
 	anySelected := false
 	for _, en := range c.Snap {
+		if en.Type == "socket" {
+			continue // never restored: it selects nothing and makes no directory "selected"
+		}
 		if m.sel(en.Path) {
 			anySelected = true
 			expect[en.Path] = true
@@ -438,10 +455,19 @@ func c20Run(t *testing.T, rec *kit.Rec, c c20Case) {
 		}
 		return "other", "", true
 	}
-	nsel, nunsel := 0, 0
+	nsel, nunsel, nsock := 0, 0, 0
 	for _, en := range c.Snap {
 		typ, data, ok := look(en.Path)
 		pe, wasPre := pre[en.Path]
+		if en.Type == "socket" {
+			// never created by restore; a pre-existing entry of that name is part of the snapshot
+			// and must survive, with and without --delete, selected or not
+			if wasPre && (!ok || typ != pe.Type || data != pe.Data) {
+				rec.Violation("snapshot-entry-removed-by-delete", fmt.Sprintf("%s: pre-existing %s %q has the name of a snapshot entry (a socket node) but was removed or changed (now %v %s %q)", desc, pe.Type, en.Path, ok, typ, data), c)
+			}
+			nsock++
+			continue
+		}
 		if expect[en.Path] {
 			nsel++
 			switch {
@@ -526,6 +552,7 @@ func c20Run(t *testing.T, rec *kit.Rec, c c20Case) {
 	}
 	rec.Count("snapshot_entries_selected", int64(nsel))
 	rec.Count("snapshot_entries_unselected", int64(nunsel))
+	rec.Count("snapshot_socket_entries", int64(nsock))
 	rec.Count("strays_must_keep", int64(nkeep))
 	rec.Count("strays_must_remove", int64(nremove))
 	rec.Count("kind_"+c.Kind, 1)
